@@ -50,8 +50,8 @@ def make_jobs(tier, seed, build):
     nmax = 2 if tier == "quick" else 3
     for gname in GRAMMARS:
         g = CORPUS[gname]
-        for n in range(0, nmax + 1):
-            for shape in tok.all_shapes(n, g.decl):
+        for shape in tok.all_shapes_by_words(nmax, g.decl):
+            if True:
                 jobs.append({"id": "%s:%s" % (gname, ",".join(shape)), "grammar": gname, "shape": shape, "fs": "none"})
     return jobs
 
@@ -63,4 +63,4 @@ def run_job(job, build):
 def finish(results, jobs, build, out, tier, seed, wall):
     nmax = 2 if tier == "quick" else 3
     return finish_tok(PROP, results, jobs, build, out, tier, seed, wall, Oracle(), CORPUS,
-                      {"items": "0..=%d" % nmax, "grammars": len(GRAMMARS), "environment": "all 3^5 set/unset/valid/invalid states, symbolically"})
+                      {"argv_words": "0..=%d (up to twice as many items)" % nmax, "grammars": len(GRAMMARS), "environment": "all 3^5 set/unset/valid/invalid states, symbolically"})
